@@ -1,18 +1,18 @@
 SPECIFICATION Spec
 CONSTANTS
-  Proc = {"w1", "x"}
+  Proc = {"w1", "r"}
   Roots <- RootsS
   Kids <- KidsS
-  MaxPacks = 4
-  MaxIdx = 4
+  MaxPacks = 3
+  MaxIdx = 3
   MaxSnaps = 2
   CanBackup = {"w1"}
-  CanRead = {}
-  CanPrune = {"x"}
-  CanForget = {"x"}
+  CanRead = {"r"}
+  CanPrune = {}
+  CanForget = {}
   CanTag = {}
-  Budget <- BudgetP
-  Variant = "prune_delete_first"
+  Budget <- Budget1
+  Variant = "ok"
 VIEW View
 INVARIANTS
   SnapshotData
